@@ -212,6 +212,22 @@ fn load_sources(thorough: bool) -> Vec<Source> {
         let d = tables::minimal_font(226, &[], &[(otmodel::tag(b"cmap"), tables::cmap_table(&[(3, 0, sub)])), (otmodel::tag(b"OS/2"), tables::os2_v4(0xF020, 0xF0FF))]);
         v.push(Source { name: "synthetic/symbol-F020-F0FF".into(), data: d, num_glyphs: 226, small: false, light: true });
     }
+    // (b2) Unicode format 4 with characters on both sides of U+8000 (an idDelta is a 16 bit value computed modulo 65536:
+    // segment starts at or above 0x8000 with small glyph ids wrap)
+    {
+        use otmodel::cmapenc::{self, Seg4, Term4};
+        use otmodel::tables;
+        let segs = [
+            Seg4::Delta { start: 0x7FFE, end: 0x7FFF, delta: (1i32 - 0x7FFE) as i16 },
+            Seg4::Delta { start: 0x8000, end: 0x8001, delta: (3i32 - 0x8000) as i16 },
+            Seg4::Delta { start: 0x8005, end: 0x8005, delta: (5i32 - 0x8005) as i16 },
+            Seg4::Delta { start: 0x9000, end: 0x9000, delta: (6i32 - 0x9000) as i16 },
+            Seg4::Delta { start: 0xFFFD, end: 0xFFFD, delta: (7i32 - 0xFFFD) as i16 },
+        ];
+        let (sub, _) = cmapenc::fmt4(&segs, Term4::Standard);
+        let d = tables::minimal_font(8, &[], &[(otmodel::tag(b"cmap"), tables::cmap_table(&[(3, 1, sub)]))]);
+        v.push(Source { name: "synthetic/cmap4-characters-around-U+8000".into(), data: d, num_glyphs: 8, small: true, light: false });
+    }
     // CFF / CFF2 sources from the C18 generator: every path operator incl. the four flex forms, stems and masks, width
     // prefix, every number encoding, local and global subroutines at the bias edges, CID-keyed and FDSelect fonts
     for (name, d) in crate::c18::corpus_for_c07() {
@@ -690,9 +706,11 @@ fn check_case(ctx: &Ctx, which: Which, case: &Case<'_>, src_map: &Option<(String
             // outlines + metrics of retained glyphs
             let src_basics = read_basics(&provider);
             if bare_cff {
+                let ind = crate::c18::IndependentCff::new(&out);
                 for (new, &old) in list.iter().enumerate() {
                     let a = guard(|| outline_of(&provider, old));
                     let b = guard(|| bare_cff_outline(&out, new as u16));
+                    independent_cff_seam(ctx, case, &ind, old, new as u16, &a);
                     cmp_outline(ctx, id, case, old, new as u16, a, b);
                 }
                 return true;
@@ -752,9 +770,13 @@ fn check_case(ctx: &Ctx, which: Which, case: &Case<'_>, src_map: &Option<(String
             } else {
                 ctx.violation("C07:metrics-unreadable", || json!({"case": case.describe()}));
             }
+            let ind = if otmodel::sfnt::parse(&out).map_or(false, |f| f.table(otmodel::tag(b"CFF ")).is_some()) { Some(crate::c18::IndependentCff::new(&out)) } else { None };
             for (new, &old) in list.iter().enumerate() {
                 let a = guard(|| outline_of(&provider, old));
                 let b = guard(|| outline_of(&op, new as u16));
+                if let Some(ind) = &ind {
+                    independent_cff_seam(ctx, case, ind, old, new as u16, &a);
+                }
                 cmp_outline(ctx, id, case, old, new as u16, a, b);
             }
         }
@@ -918,6 +940,23 @@ fn read_basics(p: &impl FontTableProvider) -> Option<(Vec<(u16, i16)>, u16)> {
 fn src_num_h_metrics(p: &impl FontTableProvider) -> Option<u16> {
     let hhea = p.read_table_data(tag::HHEA).ok()?;
     Some(u16::from_be_bytes([*hhea.get(34)?, *hhea.get(35)?]))
+}
+
+/// Independent seam on the output side: the retained glyph read from the output's `CFF ` table by the C18 reader +
+/// reference interpreter (no allsorts code) must equal the source outline (allsorts' visitor on the source) and, for the
+/// C18 model fonts, the model path itself.
+fn independent_cff_seam(ctx: &Ctx, case: &Case<'_>, ind: &Result<crate::c18::IndependentCff<'_>, String>, old: u16, new: u16, source: &Result<Result<Path, String>, mcx::PanicInfo>) {
+    let b = guard(|| match ind {
+        Ok(i) => i.outline(new).map(Path),
+        Err(e) => Err(e.clone()),
+    });
+    ctx.bump("independent_cff_outlines_compared", 1);
+    cmp_outline(ctx, "C07:independent-reader", case, old, new, source.clone(), b.clone());
+    if let Some(model) = crate::c18::c07_model_paths(&case.src.name) {
+        if let Some(m) = model.get(old as usize) {
+            cmp_outline(ctx, "C07:independent-reader-vs-model", case, old, new, Ok(Ok(Path(m.clone()))), b);
+        }
+    }
 }
 
 fn cmp_outline(ctx: &Ctx, id: &str, case: &Case<'_>, old: u16, new: u16, a: Result<Result<Path, String>, mcx::PanicInfo>, b: Result<Result<Path, String>, mcx::PanicInfo>) {
